@@ -329,7 +329,7 @@ def run(ctx):
     ]
 
     # ================================================================= helpers stream
-    n_vals = 260 if quick else 6000
+    n_vals = 300 if quick else 2500
     lines, impl, descs = [], [], []
     witnessed = set()
 
